@@ -53,6 +53,14 @@ pub fn probe_specs() -> Vec<String> {
         .collect()
 }
 
+/// Specs `gcedge:<file>` (one module per reference-edge kind: the edge is the only path to an entity, next to an unreferenced twin).
+pub fn gcedge_specs() -> Vec<String> {
+    list(&verif_root().join("corpus/gcedge"), &["wat", "wasm"])
+        .into_iter()
+        .map(|p| format!("gcedge:{}", p.file_name().unwrap().to_string_lossy()))
+        .collect()
+}
+
 /// Specs `real:<file>` (committed LLVM-produced modules).
 pub fn real_specs() -> Vec<String> {
     list(&verif_root().join("corpus/realworld"), &["wasm"])
@@ -75,6 +83,8 @@ pub fn load_disk(spec: &str) -> Option<Vec<u8>> {
         load_file(&verif_root().join("corpus/regress").join(rest))
     } else if let Some(rest) = spec.strip_prefix("real:") {
         load_file(&verif_root().join("corpus/realworld").join(rest))
+    } else if let Some(rest) = spec.strip_prefix("gcedge:") {
+        load_file(&verif_root().join("corpus/gcedge").join(rest))
     } else if let Some(rest) = spec.strip_prefix("file:") {
         load_file(Path::new(rest))
     } else {
